@@ -13,7 +13,9 @@ CLAIMED = {
              text="Every path of BrentsRootFinder.__init__/get_next_abscissa/provide_ordinate/is_converged and "
                   "find_root_brents is checked against contracts (class invariant, bracket nesting, queries inside "
                   "the interval, result at a sign change within tolerance, no ZeroDivisionError/AssertionError) for all "
-                  "real inputs and all iterations (loop invariant). Termination is not decided.",
+                  "real inputs and all iterations (loop invariant). Termination is not decided. Bounded complement (labelled "
+                  "bounded-float): the real source run concretely on 10 function shapes whose ordinates span 1e-300..1e300 "
+                  "(products of ordinates under/overflow in doubles), plus the native falsifier as a side check.",
              note=TRUST + "; f is a mathematical function"),
 }
 NA_REASON = {}
